@@ -27,6 +27,9 @@ func init() {
 		Run:      runC18,
 		Thorough: thoroughC18,
 		Mutants: []Mutant{
+			{Name: "hold-time-truncated-in-place", File: "internal/bgp/native/native.go",
+				Old: "\tret := &session{\n\t\tSessionParameters: sessionsParams,",
+				New: "\t*sessionsParams.HoldTime = sessionsParams.HoldTime.Truncate(time.Second)\n\tret := &session{\n\t\tSessionParameters: sessionsParams,", Expect: "store-through-field"},
 			{Name: "v6-flag-shared-by-all-pools", File: "internal/config/validation.go",
 				Old: "\tfor _, p := range cfg.Pools.ByName {\n\t\tcontainsV6 := false\n", New: "\tcontainsV6 := false\n\tfor _, p := range cfg.Pools.ByName {\n", Expect: "MAP-CARRY"},
 			{Name: "sortedcopy-indexes-input", File: "internal/k8s/controllers/config_conversion.go",
@@ -78,6 +81,9 @@ func runC18(p *chk.Prog, r *chk.Report) {
 	c18MapCarry(p, r)
 	// what the reconcilers remember stays equal to what a new parse yields: nothing outside internal/config stores into it
 	sharedConfigRule(p, r)
+	// acceptance does not depend on the order a map is visited in: every address group is judged by its own family's
+	// aggregation length (ADV-VALID, shared with C08)
+	c08AdvValid(p, r)
 }
 
 // c18Normalise: validateLabelSelectorDuplicate is not pure - it sorts the Values of every match expression of the
